@@ -375,6 +375,11 @@ namespace MEDDLY {
             */
             void deleteEntry(TTYPE &hnd);
 
+#ifdef MEDDLY_VERIF
+            /// Verification hook: report entry hnd to the tracer.
+            void verifEntry(int kind, TTYPE hnd);
+#endif
+
             /**
                 Resize the table.
                     @param  newsz   New size to use
@@ -925,6 +930,9 @@ void MEDDLY::ct_tmpl<TTYPE,MONOLITHIC,CHAINED,INTSLOTS>
             res.setValid();
             sawSearch(chainlen);
             perf.hits++;
+#ifdef MEDDLY_VERIF
+            if (the_verif_tracer) verifEntry(1, currhnd);
+#endif
             batchDelete();
             MMAN->recycleChunk(key->my_entry, key->entry_slots);
             key->entry_slots = 0;
@@ -1018,6 +1026,9 @@ void MEDDLY::ct_tmpl<TTYPE, MONOLITHIC, CHAINED, INTSLOTS>
     } else {
         setTable(h, key->my_entry);
     }
+#ifdef MEDDLY_VERIF
+    if (the_verif_tracer) verifEntry(0, key->my_entry);
+#endif
 
     //
     // Recycle key
@@ -1447,6 +1458,9 @@ bool MEDDLY::ct_tmpl<TTYPE,MONOLITHIC,CHAINED,INTSLOTS>
             //
             sawSearch(chainlen);
             perf.hits++;
+#ifdef MEDDLY_VERIF
+            if (the_verif_tracer) verifEntry(1, currhnd);
+#endif
             batchDelete();
             MMAN->recycleChunk(key.my_entry, key.entry_slots);
             key.entry_slots = 0;
@@ -1539,6 +1553,9 @@ void MEDDLY::ct_tmpl<TTYPE,MONOLITHIC,CHAINED,INTSLOTS>
     } else {
         setTable(h, key.my_entry);
     }
+#ifdef MEDDLY_VERIF
+    if (the_verif_tracer) verifEntry(0, key.my_entry);
+#endif
     key.my_entry = 0;
 
     //
@@ -2521,10 +2538,71 @@ bool MEDDLY::ct_tmpl<T,M,C,I>::isStale(const void* entry, bool mark) const
 
 // **********************************************************************
 
+#ifdef MEDDLY_VERIF
+//
+// Verification hook: walk entry h exactly as deleteEntry() does, collect
+// (forest id, node) for every node-typed slot, and report to the tracer.
+//
+template <class TTYPE, bool M, bool C, bool I>
+void MEDDLY::ct_tmpl<TTYPE,M,C,I>::verifEntry(int kind, TTYPE h)
+{
+    if (!the_verif_tracer || !h) return;
+    const void* hptr = MMAN->getChunkAddress(h);
+    const unsigned* uptr = (unsigned*) hptr;
+    const ct_entry_item* ctptr = (ct_entry_item*) hptr;
+    if (C) {
+        if (I) {
+            if (sizeof(TTYPE) == sizeof(unsigned)) ++uptr; else uptr += 2;
+        } else {
+            ++ctptr;
+        }
+    }
+    const ct_entry_type* et = ct_entry_type::getEntryType(
+         M  ?   ( I ? *uptr : ctptr->U )
+            :   global_etid
+    );
+    if (M) {
+        if (I) ++uptr; else ++ctptr;
+    }
+    unsigned reps = 0;
+    if (et->isRepeating()) {
+        if (I) { reps = *uptr; ++uptr; } else { reps = ctptr->U; ++ctptr; }
+    }
+    std::vector <long> fn;
+    const unsigned klen = et->getKeySize(reps);
+    const unsigned rlen = et->getResultSize();
+    for (unsigned i=0; i<klen+rlen; i++) {
+        const ct_itemtype &item = (i<klen) ? et->getKeyType(i)
+                                           : et->getResultType(i-klen);
+        if (item.hasNodeType()) {
+            node_handle n;
+            if (I) {
+                ct_item x;
+                uptr = x.set(ct_typeID::NODE, uptr);
+                n = x.getN();
+            } else {
+                n = ctptr->N;
+                ++ctptr;
+            }
+            const forest* f = item.rawForest();
+            fn.push_back(f ? long(f->FID()) : 0L);
+            fn.push_back(long(n));
+            continue;
+        }
+        if (I) uptr += item.intslots(); else ++ctptr;
+    }
+    the_verif_tracer->ctEvent(kind, this, et->getID(), (unsigned long) h,
+            fn.data(), unsigned(fn.size()/2));
+}
+#endif
+
 template <class TTYPE, bool M, bool C, bool I>
 void MEDDLY::ct_tmpl<TTYPE,M,C,I>::deleteEntry(TTYPE &h)
 {
     MEDDLY_DCASSERT(h);
+#ifdef MEDDLY_VERIF
+    if (the_verif_tracer) verifEntry(2, h);
+#endif
     const void* hptr = MMAN->getChunkAddress(h);
     const unsigned* uptr = (unsigned*) hptr;
     const ct_entry_item* ctptr = (ct_entry_item*) hptr;
